@@ -20,6 +20,10 @@ CHECKS = {
    text='Coq theorems for all operators/modes/states: hermitian_conjugated on fermionic operators is the adjoint (conjugate-transpose matrix elements), an involution and anti-multiplicative; the checkers fcomm_check / fdcomm_check / fcomm_zero / qcomm_check are proved to decide exactly AB-BA, [A,[B,C]] and their vanishing for the denoted operators. Every implementation result (hermitian_conjugated for four classes, commutator, anticommutator, double_commutator with the hopping shortcut on all index patterns, the dual-basis predicates on ALL pairs/triples of dual-basis terms of n modes, the using_term_info variant on its documented family, the diagonal-Coulomb commutator, trotter_error predicates) is judged by these checkers inside Coq.',
    note='Unbounded proofs: adjoint theorem, checker soundness. The predicates/shortcuts of the implementation are validated per input (complete for n=3 modes quick, n=4 thorough), not proved for all n. Known finding D6 (trivially_double_commutes_dual_basis) is reported as KNOWN-FINDING inside its region only. bch_expand: see evidence parts.',
    tech='Coq proof (adjoint, commutator-checker soundness) + exhaustive small-domain validation by vm_compute'),
+ 'C02': dict(cat='proof', design='3/C02',
+   text='Coq theorems: isclose (model of the repaired per-term tolerance) is exactly the per-term specification for all operators, symmetric, and independent of other terms and dictionary order (isclose_spec, isclose_sym); bounded theorems by complete enumeration: Majorana merge/sort parity and _majorana_terms_commute agree with the denoted operators (all index sets below 5), is_normal_ordered accepts exactly the fixed points of normal ordering (words of length <= 4, 3 modes). Correspondence: ==, !=, isclose (threshold-straddling pairs, 0-20 shared large terms, both argument orders, shuffled dictionaries, custom tol), MajoranaOperator == / commutes_with, is_hermitian (against the adjoint theorem operator and the verified equivalence checker), is_identity, is_normal_ordered, is_two_body_number_conserving (also implies [op,N]=0 by the verified commutator checker), is_boson_preserving, PolynomialTensor.__eq__.',
+   note='Magnitude comparisons are modelled exactly through squares; generated pairs keep a 10% margin from every threshold so float rounding cannot flip a verdict. numpy.isclose asymmetry of MajoranaOperator.__eq__ (rtol*|b|) is below that margin and not exercised. sympy coefficients not modelled.',
+   tech='Coq proof (isclose specification) + exhaustive vm_compute theorems + vm_compute correspondence'),
 }
 def main():
     fixes = subprocess.run("git -C /repo log --format=%H --grep='^fix:'", shell=True, capture_output=True, text=True).stdout.split()
